@@ -51,8 +51,8 @@ def extend_loop(C, ctx, config, b, fn, sink_suffix, what):
                                                                                             or any(item_of_next(x) for x in subterms(sk[0].args[1]))
                                                                                             or (sk[0].args[1][0] == 'call' and sk[0].args[1][1].endswith('::deref') and sk[0].args[1][2][0][0] == 'addr' and sk[0].args[1][2][0][1][0] == 'local'
                                                                                                 and len(own_calls(r, trait='Iterator::next')) == 1))
-    L = [v for (bid, h), v in r.loops.items() if bid == b['id']]
-    inloop = bool(L) and bool(sk)
+    # the loop may sit in the impl itself or in a private helper it was moved into: the sink call must be inside a loop of its own frame
+    inloop = bool(sk) and any(bid == sk[0].fn and sk[0].block in I.cfg(I.bodies[bid]).loops().get(h, ()) for (bid, h) in r.loops if bid in I.bodies)
     C.check(fn, 'every item of the argument iterator is handed to %s on self, in iteration order' % what, okv and inloop, '', b.get('span'))
 
 
@@ -76,6 +76,14 @@ def check_vec(ctx, config, rule):
         I, r = arena.run_fn(ctx, b['id'], config)
         ex = own_calls(r, trait='Extend::extend')
         okv = len(ex) == 1 and ex[0].args[0] == SELF and ex[0].args[1][0] == 'call' and ex[0].args[1][1].endswith('::cloned') and ex[0].args[1][2][0][0] == 'call' and ex[0].args[1][2][0][2] == (('param', 2),)
+        if not okv and not ex:
+            # forwards to a private helper that runs the same loop: the iterator handed on is into_iter(param 2).cloned() and
+            # every item of it is pushed on self
+            cl = [e for e in own_calls(r) if (e.callee or '').endswith('::cloned') and e.args and e.args[0][0] == 'call' and e.args[0][2] == (('param', 2),)]
+            pu = own_calls(r, "Vec::<'bump, T>::push")
+            nx = [e for e in own_calls(r) if (e.extra.get('trait_path') or e.callee or '').endswith('Iterator::next')]
+            okv = len(cl) == 1 and len(pu) == 1 and pu[0].args[0] == SELF and any(item_of_next(x) for x in subterms(pu[0].args[1])) and len(nx) == 1 \
+                and any(bid == pu[0].fn and pu[0].block in I.cfg(I.bodies[bid]).loops().get(h, ()) for (bid, h) in r.loops if bid in I.bodies)
         C.check('Vec::extend(&T)', 'forwards to extend(iter.into_iter().cloned())', okv, '', b.get('span'))
     # ---- extend_from_slice / extend_from_slices_copy
     bs = [b for b in db.fn_bodies() if b['kind'] == 'assoc_fn' and (b['meta'].get('impl_adt') or '').endswith('vec::Vec') and b['meta'].get('name') == 'extend_from_slice' and not b['meta'].get('impl_trait')]
@@ -83,6 +91,15 @@ def check_vec(ctx, config, rule):
         I, r = arena.run_fn(ctx, b['id'], config)
         ex = own_calls(r, trait='Extend::extend')
         okv = len(ex) == 1 and ex[0].args[0] == SELF and ex[0].args[1][0] == 'call' and ex[0].args[1][1].endswith('::cloned') and ex[0].args[1][2][0][0] == 'call' and ex[0].args[1][2][0][2] == (('param', 2),)
+        if not okv and not ex:
+            # the Extend body written out for a slice source: [reserve(other.len());] for item in other { self.push(item.clone()) }
+            its = [e for e in own_calls(r) if ('IntoIterator for &' in (e.callee or '') or (e.callee or '').endswith('<impl [T]>::iter')) and e.args and e.args[0] == ('param', 2)]
+            nxs = [e for e in own_calls(r) if (e.callee or '').endswith('Iterator>::next') and 'slice::iter::Iter<' in (e.callee or '')]
+            pu = own_calls(r, "Vec::<'bump, T>::push")
+            rsv = own_calls(r, "Vec::<'bump, T>::reserve")
+            okv = len(its) == 1 and len(nxs) == 1 and len(pu) == 1 and pu[0].args[0] == SELF and pu[0].args[1][0] == 'call' and pu[0].args[1][1].endswith('Clone::clone') \
+                and pu[0].args[1][2] == (('app', 'vproj', nxs[0].ret, 'Some', '0'),) and arena.foreach_loop(I, r, b, nxs[0], pu[0]) \
+                and all(e.args[0] == SELF and e.args[1] == app('len', ('param', 2)) and r.events.index(e) < r.events.index(nxs[0]) for e in rsv) and len(rsv) <= 1
         C.check('Vec::extend_from_slice', 'extend(other.iter().cloned())', okv, '', b.get('span'))
     bs = [b for b in db.fn_bodies() if b['kind'] == 'assoc_fn' and (b['meta'].get('impl_adt') or '').endswith('vec::Vec') and b['meta'].get('name') == 'extend_from_slices_copy']
     for b in bs:
